@@ -160,3 +160,19 @@ Definition name_clash (T : Z) (eds : list edim) : Prop := exists e, In e eds /\ 
 (* a value of dimension n of the source does not fit the target's field of the same name *)
 Definition misfit (S T : Z) (sp : spoint) (n : string) : Prop :=
   exists v t c m, get_dim S sp n = Some (v, t) /\ sub_of T n = Some (c, m) /\ (v > sf_max m \/ v < 0).
+
+(* ---------------- the result is USED: a name is resolved against the point format of the object ---------------- *)
+(* PointFormat.dimension_names lists `dimensions`: the standard dimensions of the format, then the extra dimensions in
+   order; PointFormat.dimension_by_name (on the path of record[name], las[name], las.name: it decides whether a name is
+   a SCALED extra dimension, presented as stored * scale + offset) returns the first dimension of that name in the same
+   list. Whatever index or cache an implementation keeps next to the list must answer like the list.
+   `ext_value`: the descriptor and the stored bytes that record[name] of one point is computed from. *)
+Inductive dimref := RStd | RExt (e : edim).
+Definition resolve (f : Z) (eds : list edim) (n : string) : option dimref :=
+  if mem n (dim_names f) then Some RStd
+  else match find (fun e => String.eqb (ed_name e) n) eds with Some e => Some (RExt e) | None => None end.
+Definition listed_names (l : lasdata) : list string := dim_names (l_fmt l) ++ map ed_name (l_edims l).
+Definition resolutions (l : lasdata) : list (string * option dimref) :=
+  map (fun n => (n, resolve (l_fmt l) (l_edims l) n)) (listed_names l).
+Definition ext_value (eds : list edim) (p : point) (n : string) : option (edim * list Z) :=
+  find (fun q => String.eqb (ed_name (fst q)) n) (combine eds (snd p)).
